@@ -3,6 +3,7 @@
 cd /verif
 for d in seeded/*/; do
   id=$(basename $d); prop=${id%%-*}
+  if grep -q '"status": "obsolete-after-fix"' $d/meta.json 2>/dev/null; then echo "$id obsolete-after-fix (skipped)"; continue; fi
   git -C /repo apply /verif/$d/patch.diff || { echo "$id PATCH-FAILS"; continue; }
   cp evidence/$prop.json /tmp/evidence_$prop.bak 2>/dev/null   # the evidence of the unchanged tree must survive this run
   timeout 1800 ./check $prop --tier quick > /tmp/seeded_$id.log 2>&1; rc=$?
